@@ -12,10 +12,12 @@ from vfw import refs
 PROPERTY = "C20"
 RULE = ("configuration cells = physical_dim x N x bc x order x dx (full product inside the bound) + history cells = all sequences (length <= 3, thorough 4) of hyper-parameter/location assignments and reads on one live prior object; every cell compares the "
         "whole operator matrix (complete basis) and the GMRF/LMRF/CMRF log-densities on basis+generic points "
-        "with a dense index-formula reference; a cell is non-trivial when the operator was constructed "
+        "with a dense index-formula reference; + size cells = pd x N x order (zero boundary) x prec=2^pk, pk in {-12,0,12}: reported rank / "
+        "log-determinant and the NORMALISED log-density at a generic point with non-zero mean against a reference that never forms "
+        "a determinant (sum of logs of the Kronecker-sum eigenvalues of the 1-D reference stencil); a cell is non-trivial when the operator was constructed "
         "(not refused) and has at least one off-diagonal stencil entry or a prior was evaluated")
-BOUND = {"quick": "1-D N=2..9, 2-D NxN N=2..4, bc in {zero,periodic,neumann,backward,none}, order 0..2, dx in {1,0.5}",
-         "thorough": "1-D N=2..40, 2-D NxN N=2..9, same options, 3 generic points per cell"}
+BOUND = {"quick": "1-D N=2..9, 2-D NxN N=2..4, bc in {zero,periodic,neumann,backward,none}, order 0..2, dx in {1,0.5}; size cells: zero boundary, order 1..2, 1-D N in {9,600,2000}, 2-D NxN N in {4,24,40}, prec in {2^-12,1,2^12}",
+         "thorough": "1-D N=2..40, 2-D NxN N=2..9, same options, 3 generic points per cell; size cells additionally 2-D 64x64"}
 ASSUMPTIONS = [
     "the Gaussian field is also constructed with the boundary conditions it does not document ('backward', 'none'): a refusal is "
     "accepted, an accepted field must report rank / log-determinant / square root of the precision it has; other spellings of "
@@ -26,7 +28,10 @@ ASSUMPTIONS = [
     "the 'backward' boundary rows are undocumented: rows are compared up to a per-row sign, D^T D exactly",
     "periodic stencils wider than the grid (order 2, N=2) are outside the documented range and skipped",
     "regularised (sqrt(eps)) Cholesky factors of singular precisions are compared at 1e-5 relative",
-    "numpy dense linear algebra (eigvalsh, slogdet) is the trusted base of the reference",
+    "numpy dense linear algebra (eigvalsh, slogdet, svd) is the trusted base of the reference",
+    "size cells cover the zero boundary only: for periodic / neumann the field computes dim-1 eigenvalues with ARPACK (dim <= "
+    "MAX_DIM_INV), unaffordable at these sizes, and above MAX_DIM_INV its log-determinant is a documented approximation; the "
+    "size-cell reference uses eig(I(x)P1 + P1(x)I) = {w_i + w_j} and w = singular values of the 1-D stencil squared, compared at 1e-7",
 ]
 
 BCS = ["zero", "periodic", "neumann", "backward", "none"]
@@ -44,6 +49,72 @@ def cells(tier, seed):
                                "npts": 1 if tier == "quick" else 3}
     for c in _hist_cells(tier, seed):
         yield c
+    for c in _size_cells(tier, seed):
+        yield c
+
+
+SIZE_PK = (-12, 0, 12)
+
+
+def _size_cells(tier, seed):
+    """Size facet: the normalised log-density of the zero-boundary Gaussian field at sizes where a determinant / product of
+    pivots / prec**rank leaves the double range, with prec = 2^pk (all pk inside one cell)."""
+    n1 = (9, 600, 2000)
+    n2 = (4, 24, 40) if tier == "quick" else (4, 24, 40, 64)
+    for pd, rng in ((1, n1), (2, n2)):
+        for N in rng:
+            for order in (1, 2):
+                yield {"size": 1, "pd": pd, "N": N, "bc": "zero", "order": order, "cat": refs.cat(seed)}
+
+
+def eval_size(cell):
+    """Reference never forms a determinant: eigenvalues of the 1-D precision = squared singular values of the 1-D reference
+    stencil; the 2-D precision is the Kronecker sum I(x)P1 + P1(x)I with eigenvalues w_i + w_j; log-determinant = sum of logs;
+    quadratic form = |D1 X|_F^2 + |X D1^T|_F^2 (X = the field as N x N array)."""
+    import cuqi
+    res = CellResult(cell)
+    pd, N, bc, order, k = cell["pd"], cell["N"], cell["bc"], cell["order"], cell["cat"]
+    dim = N if pd == 1 else N * N
+    facet = "pd=%d,bc=%s,order=%d" % (pd, bc, order)
+    D1 = refs.fd_ref(N, bc, order, 1)
+    w1 = np.linalg.svd(D1, compute_uv=False) ** 2
+    if w1.size != N or w1.min() <= 0:
+        raise AssertionError("harness self-check: zero-boundary 1-D stencil must have full column rank (%s)" % (cell,))
+    w = w1 if pd == 1 else (w1[:, None] + w1[None, :]).ravel()
+    ld_ref = float(np.sum(np.log(w)))
+    mean = refs.dyadic_vec(dim, k + 2, scale=0.125)
+    x = refs.dyadic_vec(dim, k + 4, scale=0.25)
+    r = x - mean
+    if pd == 1:
+        q = float(np.sum((D1 @ r) ** 2))
+    else:
+        X = r.reshape(N, N)
+        q = float(np.sum((D1 @ X) ** 2) + np.sum((X @ D1.T) ** 2))
+    for pk in SIZE_PK:
+        prec = 2.0 ** pk
+        res.transitions += 1
+        res.state("size-pk=%d" % pk)
+        try:
+            g = cuqi.distribution.GMRF(mean, prec, bc_type=bc, order=order, geometry=_geom(pd, N))
+            ld = float(g._logdet)
+            rank = int(g._rank)
+            v = float(np.asarray(g.logpdf(x)).ravel()[0])
+        except Exception as e:
+            res.fail("C20|GMRF|size-construct|%s" % facet, "documented field of %d nodes with prec=2^%d raised %r" % (dim, pk, e))
+            continue
+        res.evaluations += 1
+        res.traces += 1
+        if rank != dim or not (np.isfinite(ld) and close(ld, ld_ref, 1e-7)):
+            res.fail("C20|GMRF|size-logdet|%s" % facet, "field of %d nodes reports rank %r / logdet %r; its precision has rank %d and "
+                     "log-determinant %r (sum of logs of the Kronecker-sum eigenvalues)" % (dim, rank, ld, dim, ld_ref))
+            continue
+        ref = 0.5 * (dim * (pk * np.log(2.0) - refs.LOG2PI) + ld_ref) - 0.5 * prec * q
+        if not (np.isfinite(v) and close(v, ref, 1e-7)):
+            res.fail("C20|GMRF|size-logpdf|%s" % facet, "normalised logpdf of a field of %d nodes with prec=2^%d is %r, reference %r"
+                     % (dim, pk, v, ref))
+        res.outcomes.add("size:%s:N=%d:pk=%d:%.6g" % (facet, N, pk, v))
+    res.sample = {"reference_logdet": ld_ref, "quadratic_form": q, "dim": dim}
+    return res
 
 
 def _hist_cells(tier, seed):
@@ -184,6 +255,8 @@ def eval_hist(cell):
 def eval_cell(cell):
     if "hist" in cell:
         return eval_hist(cell)
+    if "size" in cell:
+        return eval_size(cell)
     import cuqi
     from cuqi.operator import FirstOrderFiniteDifference, SecondOrderFiniteDifference, PrecisionFiniteDifference
     res = CellResult(cell)
